@@ -528,6 +528,9 @@ pub fn judge(src: &str, b: &qv::Builtins, mods: &HashMap<String, String>, rep: O
             // events the reference evaluator saw in this run that are the triggers of recorded type holes (known_findings.json)
             let mut events = vec![];
             for e in ["nil_bound_by_bare_binder", "failed_match_then_more_terms_in_chain"] { if counters.get(e).copied().unwrap_or(0) > 0 { events.push(e); } }
+            // second run, one instruction per step, under the IsType monitor: did the VM's type test reject a value that
+            // structurally inhabits the tested type?  (recorded finding: the test goes by the type the tuple was built at)
+            if let Some(m) = crate::tymon::run(src, b, 400_000) { if m.rejected_structural_member > 0 { events.push("istype_rejected_structural_member"); } }
             Verdict::Disagree(cs, rs, events)
         }
     }
@@ -573,7 +576,8 @@ pub fn check(rep: &Report) {
                 // step had short-circuited) and a failed match in the middle of a chain (its narrowing stays in force for the rest
                 // of the chain).  The plain generated family never produces either trigger, so nothing is attributed there; in the
                 // other families a disagreement in a run that contained the trigger is attributed to the recorded hole.
-                let sig = if family != "generated" && events.contains(&"nil_bound_by_bare_binder") { "C02:variable-bound-to-nil-by-bare-binder-is-typed-non-nil".to_string() }
+                let sig = if events.contains(&"istype_rejected_structural_member") { "C02:type-test-goes-by-construction-site-type".to_string() }
+                    else if family != "generated" && events.contains(&"nil_bound_by_bare_binder") { "C02:variable-bound-to-nil-by-bare-binder-is-typed-non-nil".to_string() }
                     else if family != "generated" && events.contains(&"failed_match_then_more_terms_in_chain") { "C02:failed-mid-chain-match-keeps-its-narrowing".to_string() }
                     else { format!("C02:{}:{}", family, cv_hash(&src)) };
                 rep.violation(Violation { signature: sig, what: format!("compiled value differs from the reference evaluator ({} program)", family), witness: json!({"family": family, "program": src, "compiled": c, "reference": r, "index": j, "trigger_events": events}) });
